@@ -11,6 +11,7 @@ import Mrpro.Model.Rotation
 import Mrpro.Model.Load
 import Mrpro.Model.KDataOps
 import Mrpro.Model.MoveData
+import Mrpro.Model.Dcf
 open Lean M M.Proto
 
 def getTrajComp (j : Json) (k : String) : Except String TrajComp := do
@@ -382,6 +383,7 @@ def handle (j : Json) : Except String Json := do
       let r := tree.to (fun i => i + 1000000) copy target
       pure (Json.mkObj [("leaves", Json.arr (r.leaves.map (fun p => Json.mkObj [("id", Json.num (JsonNumber.fromNat p.1)), ("kind", Json.str (showDKind p.2.kind)),
         ("bits", Json.num (JsonNumber.fromNat p.2.bits))])).toArray)])
+  | "dcf1d" => pure (Json.mkObj [("w", ratsJson (dcf1d (← getRats j "x")))])
   | "norm_dims" =>
       let ndim ← getNat j "ndim"; let dims ← getInts j "dims"
       pure (match dims.mapM (normIndex ndim) with
